@@ -262,6 +262,7 @@ func runC13(c *Ctx) {
 	checkExistsThenPut(c, "C13-R4")
 	checkConflictRemoval(c, "C13-R5")
 	checkTxRecordHashIsTxid(c, "C13-R5")
+	checkBoundsCheckNamesIndexedCollection(c, "C13-R1", []string{"minedTxDetails", "unminedTxDetails"})
 	checkLoopCarriedStructs(c, "C13-R5", []string{"rollback", "updateMinedBalance"})
 }
 
